@@ -135,6 +135,27 @@ CHECKS = {
         'Tie: random programs of up to 12 public operations over a pool of objects (29 operation kinds, all sizing policies and shifting modes), every live object checked after every step with exact rationals (range, n_int, upper/lower/precision through scale/bias, dtype); floats to 1.7e308 and integers to 2^1000 under saturate against Spec.',
    design='7/C02', technique='Coq proof (range invariant of every write) + program-level exploration with exact well-formedness checks'),
 }
+# strata added to the ties after the hunting rounds (appended to level_claimed.text; DESIGN.md 0.2 / 0.8 have the full list)
+EXTRA = {
+ 'C01': ' Later strata: wrap of floats beyond 2^62 scaled, complex64 carriers, tiny complex components, Decimal scalars and lists, object ndarrays mixing ints and floats, a real value written by index into a complex array.',
+ 'C02': ' Later strata: scaled objects with integer scale / bias at the int64 / uint64 edge; float scalars, lists and arrays saturating in words of 53..70 bits (value upper + 1 LSB, saturating element after an in-range one), Spec only.',
+ 'C03': ' Later strata: + - * / sum / max of scalar, indexed and array operands through out= / op_out into narrow and 64..128-bit wrap registers with flags (Spec and arithmetic model), sums of more than 53 bits into registers with fewer fraction bits (Spec), 64..128-bit sources copied into core words (Spec and conversion model).',
+ 'C04': ' Later strata: 54..63-bit integers into formats with negative n_frac (flags, callbacks, model); the inaccuracy flag through -x +x abs np.negative np.abs << >>; complex writes.',
+ 'C07': ' Later strata: the value method (op_method=repr) on operands built from integer values, forced integer formats.',
+ 'C08': ' Later strata: the constant under op_input_size=same is the number quantized under the operand\'s modes; NumPy numbers on the left.',
+ 'C09': ' Later strata: x / y into an imposed format (sizing policies, out=, plain divisor; model opcode 45), operand formats whose integer bits do not overlap, mixed-sign operands of 54..63 aligned bits.',
+ 'C10': ' Later strata: complex sources through every route into objects created with and without a value.',
+ 'C11': ' Later strata: every prefix the configuration accepts (and none) rendered and parsed back; NumPy string arrays; 2-D renderings.',
+ 'C12': ' Later strata: fxp_sum(dtype=) (utils.get_sizes_from_dtype) with x.dtype and every spelling; the notation switched on the object.',
+ 'C13': ' Later strata: arrays of codes on either or both sides (paired element by element), scalar & array, De Morgan on arrays, NumPy masks on the left.',
+ 'C14': ' Later strata: NumPy integer shift counts; the value views real / imag and the array-ness of val after a shift.',
+ 'C15': ' Later: theorem C15_cumprod_exact (+ C15_cumprod_entry_value) and the cumprod model; clip with float / one-sided / narrow NumPy / fixed-point / keyword bounds; tuples of axes; trace offsets on non-square matrices.',
+ 'C16': ' Later strata: the left object reached through four histories, array_op_method=raw, numbers on the left (Python and NumPy), the six NumPy comparison functions called by name.',
+ 'C17': ' Later strata: narrow NumPy carriers, fixed-point values as carriers, like= with scale= / bias=, raw writes on scaled objects, and a scaled object as first / second operand of + - * or as the out= target (it counts by the value it reads back; Spec only).',
+ 'C18': ' Later strata: lists of wide integers, the value buffer after an indexed write, 2-D renderings of wide arrays.',
+ 'C19': ' Later strata: integers into negative n_frac (Spec and model), operands obtained by indexing, the value method on integer-valued operands whose words add up to 62..66 bits.',
+ 'C20': ' Later strata: 19 container kinds compared deeply before and after three store routes; T / flatten / ravel / fxp_like among the 17 routes.',
+}
 NA_REASON = 'not claimed'
 def main():
     props = [json.loads(l)['id'] for l in open(os.path.join(VERIF, 'properties.jsonl'))]
@@ -149,7 +170,7 @@ def main():
             'evidence_file': '/verif/evidence/%s.json' % pid,
             'replay_cmd_template': './check %s --replay {path}' % pid,
             'engine': 'coq-model-correspondence',
-            'level_claimed': {'category': c.get('category', 'proof'), 'text': c['text'], 'design_ref': 'DESIGN.md section ' + c['design']},
+            'level_claimed': {'category': c.get('category', 'proof'), 'text': c['text'] + EXTRA.get(pid, ''), 'design_ref': 'DESIGN.md section ' + c['design']},
             'level_note': c.get('note', '') + TB % pid,
             'technique': c['technique'],
         })
